@@ -18,7 +18,9 @@ import (
 	corev1 "k8s.io/api/core/v1"
 	apierrors "k8s.io/apimachinery/pkg/api/errors"
 	metav1 "k8s.io/apimachinery/pkg/apis/meta/v1"
+	"k8s.io/apimachinery/pkg/runtime/serializer"
 	"k8s.io/apimachinery/pkg/types"
+	clienttesting "k8s.io/client-go/testing"
 	"k8s.io/klog/v2"
 	fakeclock "k8s.io/utils/clock/testing"
 	"k8s.io/utils/ptr"
@@ -963,8 +965,11 @@ func TestVerifC17(t *testing.T) {
 
 	tmpl := newTestReconciler()
 	scheme := tmpl.Client.Scheme()
-	base := fake.NewClientBuilder().WithStatusSubresource(&sev1alpha1.PodMigrationJob{}).WithScheme(scheme).Build()
-	n := h.N(1500, 30000)
+	// plain object tracker: the default field-managed tracker rebuilds a REST mapper on every write (40% of the run
+	// time) and managed fields are irrelevant here; update / status-subresource semantics are the fake client's own
+	tracker := clienttesting.NewObjectTracker(scheme, serializer.NewCodecFactory(scheme).UniversalDecoder())
+	base := fake.NewClientBuilder().WithStatusSubresource(&sev1alpha1.PodMigrationJob{}).WithScheme(scheme).WithObjectTracker(tracker).Build()
+	n := h.N(6000, 120000)
 	for idx := 0; idx < n; idx++ {
 		r := h.Begin(idx)
 		if r == nil {
